@@ -2,6 +2,7 @@ SPECIFICATION Spec
 CONSTANTS
   CwdVariant = "code"
   StatGuard = FALSE
+  CcStopsAtExisting = FALSE
   MaxFlags = 4
   MaxStr = 3
   Emit = TRUE
